@@ -1,7 +1,12 @@
-// ===== trusted prelude: std::net =====
+// ===== trusted prelude: std::net (SocketAddr is a transparent enum: the code matches on V4/V6) =====
+#[verifier::external_type_specification]
+pub struct ExSocketAddr(SocketAddr);
 #[verifier::external_type_specification]
 #[verifier::external_body]
-pub struct ExSocketAddr(SocketAddr);
+pub struct ExSocketAddrV4(SocketAddrV4);
+#[verifier::external_type_specification]
+#[verifier::external_body]
+pub struct ExSocketAddrV6(SocketAddrV6);
 pub assume_specification[ <SocketAddr as PartialEq>::eq ](a: &SocketAddr, b: &SocketAddr) -> (r: bool)
     ensures r == (*a == *b);
 // TRUSTED: SocketAddr's Hash/Eq agree (std derive on plain data)
